@@ -100,8 +100,29 @@ def run(ctx):
         e = inline_at(cfg, rd, withm[0].id, withm[0].ast.value.args[0], depth=3)
         s = src(e)
         ctx.check("R11.1", key, s == f"SamplingEnabler(self._lh({xn}).metric, self._prior({xn}).metric, self._ic_samp)", s, ap, withm[0].ast)
-        base = inline_at(cfg, rd, withm[0].id, withm[0].ast.value.func.value, depth=3)
-        ctx.check("R11.1", f"{ap.key}::value is likelihood + prior", src(base).replace(" ", "") in (f"self._lh({xn})+self._prior({xn})", f"self._prior({xn})+self._lh({xn})"), src(base), ap)
+        # the value: likelihood + prior, possibly plus stored constants (self._<attr> addends), along every reaching definition
+        def alternatives(node_id, e, depth=4):
+            e = inline_at(cfg, rd, node_id, e, depth=3)
+            if isinstance(e, ast.Name) and depth > 0:
+                out = []
+                for d in sorted((rd.get(node_id) or {}).get(e.id, ())):
+                    dn = cfg.nodes[d]
+                    if dn.kind == "stmt" and isinstance(dn.ast, ast.Assign) and len(dn.ast.targets) == 1 and src(dn.ast.targets[0]) == e.id:
+                        out += alternatives(d, dn.ast.value, depth - 1)
+                    else:
+                        out.append(None)
+                return out
+            if isinstance(e, ast.BinOp) and isinstance(e.op, ast.Add):
+                res = []
+                for a in alternatives(node_id, e.left, depth - 1):
+                    for b in alternatives(node_id, e.right, depth - 1):
+                        res.append(None if a is None or b is None else a + b)
+                return res
+            return [[src(e)]]
+        alts = alternatives(withm[0].id, withm[0].ast.value.func.value)
+        want = sorted([f"self._lh({xn})", f"self._prior({xn})"])
+        okv = bool(alts) and all(a is not None and sorted(t for t in a if not (t.startswith("self._") and "(" not in t)) == want for a in alts)
+        ctx.check("R11.1", f"{ap.key}::value is likelihood + prior (plus stored constants)", okv, str(alts), ap)
     # operator sums
     aos = m.func(OPM, "_OpSum._apply_operator_sum")
     ctx.saw_func(aos)
@@ -224,22 +245,22 @@ FISHER_CONST = {
 }
 
 
-def r11_4(ctx, m):
+def r11_4(ctx, m, rid="R11.4", only=None):
     from .c03 import _load_sympy
     from ..fieldsym import FieldSym, NotUnderstood
-    ctx.rule("R11.4", "Fisher identity per energy (real-valued case, per pixel): with E the energy term of apply() and T the "
+    ctx.rule(rid, "Fisher identity per energy (real-valued case, per pixel): with E the energy term of apply() and T the "
                       "transformation of get_transformation(), (dT/dx)^2 equals the expectation over the data of d^2E/dx^2 "
-                      "(sympy as term normaliser; expectation of the data from a frozen table)", floor=6)
+                      "(sympy as term normaliser; expectation of the data from a frozen table)", floor=6 if only is None else len(only))
     sp = _load_sympy()
     if sp is None:
-        ctx.und("R11.4", f"{EO}::sympy", "sympy not importable", EO)
+        ctx.und(rid, f"{EO}::sympy", "sympy not importable", EO)
         return
-    for cname in list(EXPECT) + list(FISHER_CONST):
+    for cname in [c_ for c_ in list(EXPECT) + list(FISHER_CONST) if only is None or c_ in only]:
         C = m.cls(EO, cname)
         ap, gt = C.methods.get("apply"), C.methods.get("get_transformation")
         key = f"{C.key}::(dT/dx)^2 == E_d[d^2E/dx^2]"
         if ap is None or gt is None:
-            ctx.und("R11.4", key, "apply/get_transformation missing", C)
+            ctx.und(rid, key, "apply/get_transformation missing", C)
             continue
         ctx.saw_func(ap)
         ctx.saw_func(gt)
@@ -249,10 +270,10 @@ def r11_4(ctx, m):
             E, _ = fs.run(ap.node.body, {xn: fs.X})
             T, _ = fs.run(gt.node.body, {})
         except NotUnderstood as exc:
-            ctx.und("R11.4", key, f"term not understood: {exc}", C)
+            ctx.und(rid, key, f"term not understood: {exc}", C)
             continue
         if E is None or T is None:
-            ctx.und("R11.4", key, "no returned term", C)
+            ctx.und(rid, key, "no returned term", C)
             continue
         X = fs.X
         Epp = sp.diff(E, X, 2)
@@ -267,7 +288,7 @@ def r11_4(ctx, m):
                     break
                 Epp = Epp.subs(dsym, sp.sympify(expr, locals={k: v for k, v in loc.items()}))
             if Epp is None:
-                ctx.und("R11.4", key, f"data attribute of the expectation table not found among {sorted(fs.syms)}", C)
+                ctx.und(rid, key, f"data attribute of the expectation table not found among {sorted(fs.syms)}", C)
                 continue
             fisher = Epp
         else:
@@ -287,7 +308,7 @@ def r11_4(ctx, m):
             zero = all(v == 0 for v in vals)
         else:
             zero = True
-        ctx.check("R11.4", key, bool(zero),
+        ctx.check(rid, key, bool(zero),
                   f"E = {E}; T = {T}; (dT/dx)^2 = {sp.simplify(Tp2)}; Fisher = {sp.simplify(fisher)} [{why}]", C, gt.node)
 
 
